@@ -505,7 +505,7 @@ class HistoryModel:
             ns.composed = {"inputs": ins, "outputs": outs, "single": bool(op.get("single"))}
             if op.get("is_async") is not None:
                 ns.is_async = op["is_async"]
-            ns.mc = 1
+            ns.mc = op.get("mc") or 1
             self.inst[op["as"]] = ns
             self.expect[key] = Expect("none")
         elif k == "gather":
